@@ -7,12 +7,14 @@ CONSTANTS
   MaxAns = 4
   Bursts = {99, 100}
   FaultsOn = TRUE
+  RcKeys <- RcKeysThorough
   Retries = 1
   T0 = 1000000
 SPECIFICATION Spec
 INVARIANT HonestVerifies
 INVARIANT TamperRejected
 INVARIANT ClocksRejected
+INVARIANT WindowEnforced
 INVARIANT PolicyRejected
 INVARIANT RestoresOctets
 INVARIANT LayoutFollowsRfc
